@@ -7,7 +7,7 @@
 //! where `<local secs>` is the wall clock expressed as seconds since 1970-01-01T00:00 (as if UTC).
 
 use crate::mon::guard;
-use chrono::{DateTime, Local, MappedLocalTime, NaiveDateTime, Offset, TimeZone};
+use chrono::{DateTime, FixedOffset, Local, MappedLocalTime, NaiveDateTime, NaiveTime, Offset, TimeZone, Utc};
 use std::io::{BufRead, Write};
 
 pub fn ndt_of_secs(s: i64) -> Option<NaiveDateTime> {
@@ -52,16 +52,73 @@ pub fn answer_utc(u: i64) -> Ans {
         let o1 = Local.offset_from_utc_datetime(&n).fix().local_minus_utc();
         let dt = Local.from_utc_datetime(&n);
         let o2 = dt.offset().fix().local_minus_utc();
-        (o1, o2, dt.naive_utc() == n)
+        (o1, o2, dt.naive_utc() == n, glue_utc(&n, &dt, o1))
     }) {
-        Ok((o1, o2, same)) => {
+        Ok((o1, o2, same, glue)) => {
             if o1 != o2 || !same {
                 Ans::Panic(format!("offset_from_utc_datetime={} but from_utc_datetime offset={} same_instant={}", o1, o2, same))
+            } else if let Some(g) = glue {
+                Ans::Panic(format!("{}{}", GLUE, g))
             } else {
                 Ans::Single(o1)
             }
         }
         Err(p) => Ans::Panic(format!("{} at {}", p.msg, p.site())),
+    }
+}
+
+/// Prefix of the message of an answer that reports two public routes disagreeing with each other.
+pub const GLUE: &str = "routes-disagree: ";
+
+/// The other public ways of getting the same instant shown in the local zone (or the local value shown
+/// in another zone): each must carry the zone's offset for that instant and keep the instant.
+#[allow(deprecated)]
+fn glue_utc(n: &NaiveDateTime, dt: &DateTime<Local>, off: i32) -> Option<String> {
+    let src_off = if off == 19_815 { -12_345 } else { 19_815 };
+    let src: DateTime<FixedOffset> = FixedOffset::east_opt(src_off).expect("offset").from_utc_datetime(n);
+    let mut bad = Vec::new();
+    let mut chk = |name: &str, o: i32, nu: NaiveDateTime, want: i32| {
+        if o != want || nu != *n {
+            bad.push(format!("{} gives offset {} (instant kept: {}), expected offset {}", name, o, nu == *n, want));
+        }
+    };
+    let l1: DateTime<Local> = src.into();
+    chk("From<DateTime<FixedOffset>> for DateTime<Local>", l1.offset().local_minus_utc(), l1.naive_utc(), off);
+    let l2: DateTime<Local> = Utc.from_utc_datetime(n).into();
+    chk("From<DateTime<Utc>> for DateTime<Local>", l2.offset().local_minus_utc(), l2.naive_utc(), off);
+    let l3 = src.with_timezone(&Local);
+    chk("DateTime<FixedOffset>::with_timezone(&Local)", l3.offset().local_minus_utc(), l3.naive_utc(), off);
+    let f1: DateTime<FixedOffset> = (*dt).into();
+    chk("From<DateTime<Local>> for DateTime<FixedOffset>", f1.offset().local_minus_utc(), f1.naive_utc(), off);
+    let f2 = dt.fixed_offset();
+    chk("DateTime<Local>::fixed_offset", f2.offset().local_minus_utc(), f2.naive_utc(), off);
+    let u1: DateTime<Utc> = (*dt).into();
+    chk("From<DateTime<Local>> for DateTime<Utc>", 0, u1.naive_utc(), 0);
+    // the (deprecated) date-level entry point is the offset at UTC midnight of that date
+    let mid = n.date().and_time(NaiveTime::MIN);
+    let (od, om) = (Local.offset_from_utc_date(&n.date()).local_minus_utc(), Local.offset_from_utc_datetime(&mid).local_minus_utc());
+    if od != om {
+        bad.push(format!("offset_from_utc_date gives {} but the offset at UTC midnight of that date is {}", od, om));
+    }
+    if bad.is_empty() {
+        None
+    } else {
+        Some(bad.join("; "))
+    }
+}
+
+/// The (deprecated) date-level entry points are documented as the mapping of local midnight.
+#[allow(deprecated)]
+fn glue_local(n: &NaiveDateTime) -> Option<String> {
+    let d = n.date();
+    let conv = |m: MappedLocalTime<FixedOffset>| m.map(|o| o.local_minus_utc());
+    let at_mid = conv(Local.offset_from_local_datetime(&d.and_time(NaiveTime::MIN)));
+    let by_date = conv(Local.offset_from_local_date(&d));
+    let by_from = Local.from_local_date(&d).map(|x| x.offset().local_minus_utc());
+    if by_date != at_mid || by_from != at_mid {
+        Some(format!("local midnight of {} maps to {:?} but offset_from_local_date gives {:?} and from_local_date {:?}", d, at_mid, by_date, by_from))
+    } else {
+        None
     }
 }
 
@@ -73,9 +130,10 @@ pub fn answer_local(l: i64) -> Ans {
         // earliest()/latest() must be consistent with the variant
         let el = (b.clone().earliest().map(|d| d.offset().fix().local_minus_utc()), b.clone().latest().map(|d| d.offset().fix().local_minus_utc()));
         let b2 = b.map(|d| d.offset().fix().local_minus_utc());
-        (a, b2, el)
+        (a, b2, el, glue_local(&n))
     }) {
-        Ok((a, b, el)) => {
+        Ok((_, _, _, Some(g))) => Ans::Panic(format!("{}{}", GLUE, g)),
+        Ok((a, b, el, None)) => {
             let conv = |m: MappedLocalTime<i32>| match m {
                 MappedLocalTime::None => Ans::None,
                 MappedLocalTime::Single(o) => Ans::Single(o),
@@ -123,7 +181,7 @@ pub fn child_main(args: &[String]) -> i32 {
 /// Returns one answer per query, or Err on a harness-level failure.
 pub fn run_child(work_dir: &std::path::Path, tag: &str, tz: Option<&str>, queries: &[(char, i64)]) -> Result<Vec<Ans>, String> {
     std::fs::create_dir_all(work_dir).map_err(|e| e.to_string())?;
-    let qpath = work_dir.join(format!("q-{}.txt", tag));
+    let qpath = work_dir.join(format!("q-{}-{}.txt", std::process::id(), tag));
     let mut s = String::new();
     for (k, v) in queries {
         s.push_str(&format!("{} {}\n", k, v));
